@@ -619,7 +619,8 @@ def stage_decisions(ws, ds):
     entries = []
     for d in todo:
         if d['kind'] == 'bitfield':
-            entries.append('(let d := %s in (%s, valid_decl d, accept_decl d, offered d))' % (decls.coq_decl(d), translate.cstr(d['name'])))
+            entries.append('(let d := %s in (%s, valid_decl d, accept_decl d, if accept_decl d then offered d else false))' % (
+                decls.coq_decl(d), translate.cstr(d['name'])))      # the builder masks of a rejected declaration can be astronomically large
         else:
             entries.append('(let e := %s in (%s, valid_enum e, enum_accept e, false))' % (decls.coq_enum(d), translate.cstr(d['name'])))
     for d, (aname, toks) in tok_todo:
